@@ -10,6 +10,21 @@ let n_of_int i = if i = 0 then N0 else Npos (pos_of_int i)
 let rec int_of_pos = function XH -> 1 | XO p -> 2 * int_of_pos p | XI p -> 2 * int_of_pos p + 1
 let int_of_n = function N0 -> 0 | Npos p -> int_of_pos p
 
+(* decimal printing without overflow (parallel_size of a never-initialised object can be 2^64-1) *)
+let string_of_n (x : n) : string =
+  let dbl_add digits carry =   (* digits: little-endian decimal digits *)
+    let rec go ds c = match ds with
+      | [] -> if c = 0 then [] else [c]
+      | d :: r -> let v = 2 * d + c in (v mod 10) :: go r (v / 10) in
+    go digits carry in
+  let rec of_pos = function
+    | XH -> [1]
+    | XO p -> dbl_add (of_pos p) 0
+    | XI p -> dbl_add (of_pos p) 1 in
+  match x with
+  | N0 -> "0"
+  | Npos p -> String.concat "" (List.rev_map string_of_int (of_pos p))
+
 let byte_of_int i : byte =
   let b k = (i lsr k) land 1 = 1 in
   (((((((b 7, b 6), b 5), b 4), b 3), b 2), b 1), b 0)
@@ -108,11 +123,11 @@ let print_events ln (evs : event list) =
           Printf.sprintf "ret %d out %s" (int_of_n r) (hex_of_bytes o)
       | EOut o -> Hashtbl.replace saved ln (hex_of_bytes o); Printf.sprintf "out %s" (hex_of_bytes o)
       | EDone -> "done"
-      | EImg (r, b, None) -> Printf.sprintf "img %d %s" (int_of_n r) (hex_of_bytes b)
-      | EImg (r, b, Some t) -> Printf.sprintf "img %d %s %s" (int_of_n r) (hex_of_bytes b) (hex_of_bytes t)
+      | EImg (r, b, None) -> Printf.sprintf "img %s %s" (string_of_n r) (hex_of_bytes b)
+      | EImg (r, b, Some t) -> Printf.sprintf "img %s %s %s" (string_of_n r) (hex_of_bytes b) (hex_of_bytes t)
       | EWhich None -> "which none"
       | EWhich (Some b) -> "which " ^ backend_name b
-      | EPsize n -> Printf.sprintf "psize %d" (int_of_n n)
+      | EPsize n -> Printf.sprintf "psize %s" (string_of_n n)
       | EProbe (a, b) -> Printf.sprintf "probe %d %d" (if a then 1 else 0) (if b then 1 else 0)
       | EBad n -> Printf.sprintf "MODEL-UNDEFINED %d" (int_of_n n)
     in Printf.printf "%d %s\n" ln s) evs
